@@ -199,8 +199,10 @@ def run(args):
             mf = mustfail.setdefault(clause_name(vc), {'sat': 0, 'unsat': 0, 'unknown': 0})
             mf[r['result'] if r['result'] in ('sat', 'unsat') else 'unknown'] += 1
             continue
-        counts['obligations'] += 1
         cn = clause_name(vc)
+        if cn in getattr(prop, 'EXCLUDE_CLAUSES', ()):
+            continue        # clause of a shared contract that belongs to another property
+        counts['obligations'] += 1
         ent = by_clause.setdefault(cn, {'vcs': 0, 'unsat': 0, 'sat': [], 'unknown': [], 'fn': vc.fn,
                                         'kind': vc.kind, 'note': vc.note})
         ent['vcs'] += 1
@@ -374,6 +376,8 @@ def finish(pid, tier, seed, code, t0, L):
             c = spec.contracts.get(q)
             if c is not None and c.trusted:
                 trusted.append('trusted contract %s%s' % (q, (': ' + c.note) if c.note else ''))
+            if c is not None and c.assumed:
+                trusted.append('assumed (unproved) clauses of %s: %s' % (q, '; '.join(c.assumed)))
     kn = L.get('known_hits', [])
     known_obls = sum(L['by_clause'][info['obligation']]['vcs'] - L['by_clause'][info['obligation']]['unsat']
                      for kf, info in kn) if kn else 0
